@@ -27,7 +27,7 @@ NV, NB = 3, 2
 
 
 def nontrivial(op, result):
-    return op != "reset" and result not in ("invalid", "bad-op")
+    return op not in ("reset", "end") and result not in ("invalid", "bad-op")
 
 
 class Sim:
@@ -300,6 +300,7 @@ def histories(rng, count, length, stats, buffer_share):
             o = sim.bop() if rng.chance(buffer_share, 100) else sim.vop()
             if o:
                 ops.append(o)
+        ops.append("end")
     ops.append("reset")
     return ops
 
@@ -324,6 +325,7 @@ def buffer_histories(rng, count, length, stats):
             o = sim.vop() if rng.chance(3, 4) else sim.bop()
             if o:
                 ops.append(o)
+        ops.append("end")
     ops.append("reset")
     return ops
 
@@ -373,7 +375,7 @@ def systematic(sizes, extras, thorough):
                         cases.append(f"erar 0 {a} {b}")
                 cases += ["pop 0", "clear 0", "shrink 0", f"reserve 0 {n + 5}", "ctor 1 move 0", "swap 0 1", "massign 1 0"]
                 for c in cases:
-                    ops += pre + [c, "obs 0", "push 0 v55"]
+                    ops += pre + [c, "obs 0", "push 0 v55", "end"]
     ops.append("reset")
     return ops
 
